@@ -686,11 +686,21 @@ package task
 // envInKey: the key under which the result is stored covers the environment (trivially so when there is none)
 //@   init envInKey := len(e) == 0
 //@   site mapstore#0 requires envInKey                                                                         [C11]
+// every SUCCESSFUL evaluation is remembered, whatever it printed (nothing, too): the variables of a task are resolved
+// again when its deferred commands run, and a command that is a one-way guard ("test ! -e out": true before the task,
+// false after it) must not be run a second time - its failure then would cost the task its deferred commands
+//@   init dynEvaluated := false
+//@   init dynRemembered := false
+//@   site execext.RunCommand#1 ghost dynEvaluated := result == nil
+//@   site mapstore#0 ghost dynRemembered := true
+//@   ensures result.1 == nil && dynEvaluated ==> dynRemembered                                                 [C14,C11]
 
 // ---- C11: compiling a task builds a fresh object graph ---------------------------------------------------
 // Every command, dependency and precondition put into the compiled task is a copy made during this call (so
 // that templating it, or the lazy templating of deferred commands, never writes into the task definition),
 // and the compiled task itself is a new object.
+//@ ghost var dynEvaluated bool scratch
+//@ ghost var dynRemembered bool scratch
 //@ ghost var dotSeen bool scratch
 //@ ghost var dotPending bool scratch
 //@ ghost var nMethodStores int scratch
